@@ -572,13 +572,24 @@ func (r *Run) RunChildren(testName string, units []string, par int, perChild tim
 			sem <- struct{}{}
 			defer func() { <-sem }()
 			file := filepath.Join(scratch, fmt.Sprintf("partial-%s-%d-%d.json", r.ID, os.Getpid(), i))
-			ctx, cancel := context.WithTimeout(context.Background(), perChild)
-			defer cancel()
-			cmd := exec.CommandContext(ctx, os.Args[0], "-test.run", "^"+testName+"$", "-test.timeout=0")
-			cmd.Env = append(os.Environ(), "VERIF_CHILD="+u, "VERIF_CHILD_OUT="+file)
-			out, err := cmd.CombinedOutput()
-			if ctx.Err() != nil {
-				err = fmt.Errorf("child timed out after %s", perChild)
+			var out []byte
+			var err error
+			// a child that exceeds its time limit is started over once: a hung
+			// bubble (a goroutine blocked for ever on something synctest does
+			// not regard as durable) cannot be interrupted from inside
+			for attempt := 0; attempt < 2; attempt++ {
+				ctx, cancel := context.WithTimeout(context.Background(), perChild)
+				cmd := exec.CommandContext(ctx, os.Args[0], "-test.run", "^"+testName+"$", "-test.timeout=0")
+				cmd.Env = append(os.Environ(), "VERIF_CHILD="+u, "VERIF_CHILD_OUT="+file)
+				cmd.WaitDelay = 5 * time.Second
+				out, err = cmd.CombinedOutput()
+				timedOut := ctx.Err() != nil
+				cancel()
+				if !timedOut {
+					break
+				}
+				err = fmt.Errorf("child timed out after %s (attempt %d)", perChild, attempt+1)
+				os.Remove(file)
 			}
 			done <- res{u, out, err, file}
 		}(i, u)
